@@ -634,6 +634,10 @@ class Emitter:
         if k == 'ConditionalOperator':
             return '(%s ? %s : %s)' % tuple(self.E(c) for c in inner)
         if k == 'ArraySubscriptExpr':
+            bt = self.ctype(self.strip(inner[0])['type']) if 'type' in self.strip(inner[0]) else ''
+            if bt in ('m128', 'm256', 'm512'):
+                # subscript on a GCC vector-extension object (e.g. tmp[N] = x on __m128): the element in the register's bytes
+                return '((%s*)%s)[%s]' % (self.ctype(n['type']), self.addr(inner[0]), self.E(inner[1]))
             return '%s[%s]' % (self.E(inner[0]), self.E(inner[1]))
         if k == 'UnaryExprOrTypeTraitExpr':
             if n.get('name') in ('sizeof', 'alignof', '__alignof'):
@@ -756,6 +760,20 @@ class Emitter:
             raise Abort('callee ' + str(c.get('kind')))
         rd = c['referencedDecl']
         name, fd, av = self.fn_of_ref(rd)
+        if fd is None and not name.startswith('_'):
+            # declaration outside the dump (std::): reference-ness of parameters / result from the printed signature
+            t = re.sub(r'\s*noexcept(\(\w+\))?$', '', (rd.get('type') or {}).get('qualType', ''))
+            m = re.match(r'^(.*?)\((.*)\)$', t)
+            if m:
+                ps = split_top(m.group(2))
+                args = []
+                for i, a in enumerate(inner[1:]):
+                    isref = i < len(ps) and ps[i].rstrip().endswith('&')
+                    args.append(self.addr(a) if isref else self.E(a))
+                call = '%s(%s)' % (name, ', '.join(args))
+                if m.group(1).rstrip().endswith('&'):
+                    call = '(*%s)' % call
+                return call
         args = [self.arg(a, fd, i) for i, a in enumerate(inner[1:])]
         call = '%s(%s)' % (name, ', '.join(args))
         if fd is not None and self.returns_ref(fd):
@@ -877,6 +895,9 @@ class Emitter:
         for c in inner:
             if c.get('kind') == 'InitListExpr':
                 parts.append(self.initlist(c, top=False))
+            elif c.get('kind') in ('ImplicitValueInitExpr', 'CXXScalarValueInitExpr') and (
+                    '[' in self.ctype(c['type']) or self.ctype(c['type']) in self.structs):
+                parts.append('{0}')
             else:
                 parts.append(self.E(c))
         body = '{%s}' % (', '.join(parts) if parts else '0')
